@@ -35,6 +35,8 @@ def run(P, R, L):
     from .c11 import grd5, pair1
     grd5(P, R, L)
     pair1(P, R, L)
+    R.clause("OWN-10", "every open table has its own block-cache partition id and caches blocks under (id, block offset)")
+    K.own10_cache_partitions(P, R, L)
     R.not_decided += ["linearizability itself (real-time order of responses)", "fairness of unlocked_fair",
                       "memory-model arguments for the unsafe blocks (UnsafeCell LogWriter, ArcSwap)"]
     R.assumptions += ["parking_lot::MutexGuard::unlocked_fair releases the mutex for exactly the duration of the closure",
